@@ -187,6 +187,10 @@ def run_simplify(case):
             # fuse_multibonds takes no output_inds: only sound when no requested output label is also a bond
             if any(len(tn.ind_map.get(ix, ())) >= 2 for ix in out):
                 raise Reject("fuse_multibonds does not know about output labels that are also bonds")
+            # diagonal_reduce can leave a *neighbouring* tensor holding the same label twice (only the diagonal tensor itself
+            # is collapsed); fusing such a label is refused with a ValueError by Tensor.fuse -> modify: a detected refusal
+            if any(len(set(t.inds)) != len(t.inds) for t in tn.tensor_map.values()):
+                raise Reject("fuse_multibonds with a label repeated on one tensor")
             res = tn.fuse_multibonds(inplace=inplace)
         if not inplace:
             if fingerprint(tn) != before:
